@@ -271,18 +271,36 @@ def p3_delete_frees(prog):
     # (b) Archetype::clear frees each identifier, before length = 0
     for f in prog.fns.values():
         if f.path == 'archetype::Archetype::<R>::clear':
-            body = f.body
-            fr = [(b, t) for b, t in body.calls(lambda c: c['name'] == 'free_unchecked')]
-            r.inst('%s: %d free in loop' % (f.path, len(fr)))
-            if not fr:
+            E = pathsem.analyse(prog, f)
+            ei = adt_field_index(prog, 'archetype::Archetype', 'entity_identifiers')
+            S = pathsem.strip_refs
+            n_el = n_free = 0
+            bad = None
+            for p in E.paths:
+                if p.ended not in ('return', 'cutoff'):
+                    continue
+                els = []
+                for a_, v in p.conds:
+                    if isinstance(a_, tuple) and ((a_[0] == 'next' and v == 1) or (a_[0] == 'nonempty' and v is True)):
+                        root = pathsem.iter_chain(a_[1])[0]
+                        if pathsem.mentions(root, lambda t: pathsem.is_field_of(t, 'archetype::Archetype', ei)):
+                            els.append(('elem', a_[1]) + tuple(a_[2:3] if a_[0] == 'next' else ()))
+                frees = p.calls(lambda e: e['name'] == 'free_unchecked')
+                n_el += len(els)
+                n_free += len(frees)
+                for el in els:
+                    if not any(S(e['args'][1]) in (el, ('d', el)) or S(e['vals'][1]) in (el, ('d', el)) for e in frees) and p.ended == 'return':
+                        bad = bad or 'an identifier of the column is dropped without being freed'
+                for e in frees:
+                    if not any(S(e['args'][1]) in (el, ('d', el)) or S(e['vals'][1]) in (el, ('d', el)) for el in els):
+                        bad = bad or 'free_unchecked is applied to something that is not an element of the identifier column'
+            r.inst('%s: %d free in loop' % (f.path, n_free))
+            if E.truncated or not n_free:
                 r.viol('P3', f.path + '/no-free', f.loc(), 'Archetype::clear does not free the identifiers it drops')
-            for b, t in fr:
-                if b not in body.reachable_after(b):
-                    r.viol('P3', f.path + '/free-not-in-loop', f.loc(t['ln']), 'free_unchecked is not inside a loop over the identifier column')
-                # loop iterates over the identifier column: an iter()/into_iter() over a Vec<Identifier>
-                its = [tt for bb, tt in body.calls(lambda c: c['name'] in ('iter', 'into_iter', 'drain')) if tt['args'] and ty_mentions(body.place_ty(op_place(tt['args'][0])) or {}, lambda n: is_adt(n, ID_T))]
-                if not its:
-                    r.viol('P3', f.path + '/loop-source', f.loc(t['ln']), 'the freeing loop does not iterate the identifier column')
+            elif not n_el:
+                r.viol('P3', f.path + '/loop-source', f.loc(), 'the freeing loop does not iterate the identifier column')
+            elif bad:
+                r.viol('P3', f.path + '/free-not-in-loop', f.loc(), bad)
         if f.path in ('archetype::Archetype::<R>::clear_detached', 'archetype::Archetype::<R>::pop_row_unchecked'):
             body = f.body
             r.inst('%s: must not free' % f.path)
